@@ -508,6 +508,11 @@ func replay() {
 	defer l.Merge()
 	fmt.Printf("replay %+v\n", c)
 	switch c.Kind {
+	case "twisted":
+		var t twistCase
+		if err := mc.LoadReplay(chk.ReplayFile(), &t); err == nil {
+			twistOne(l, t)
+		}
 	case "transform":
 		checkMap(l, "transform", "", c.Src, c.Dst, q2q(c.Src, c.Dst))
 	case "s2q":
